@@ -2,6 +2,7 @@
    Statements only; every proof is [exact <lemma>]. *)
 From Coq Require Import ZArith NArith List Bool Reals Floats. Import ListNotations.
 From PV Require Import Num NumR model.Optimiser model.OptSpec proofs.OptStruct proofs.OptLoop proofs.FloatFacts proofs.FloatZero proofs.HillClimb proofs.RealFacts.
+From PV Require Import model.Cli gen.GenCli proofs.CliFacts.
 
 Theorem C05_zero_temperature_is_hill_climb :
   forall (fexp : F -> F) (fpow : F -> F -> F) (score : N -> list F -> option F), fexp
@@ -83,3 +84,44 @@ Proof.
   cbv zeta. split; [reflexivity|]. split; [reflexivity|].
   repeat constructor.
 Qed.
+
+Theorem C05_cli_driver_translated :
+  gen_cli_problem = String.EmptyString.
+Proof. exact cli_translated. Qed.
+Print Assumptions C05_cli_driver_translated.
+
+Theorem C05_cli_stage1_settings :
+  forall (NN : Num) (i : N) (u : sbuilder NN), sb NN (stage_settings NN (gen_stages NN) 0 i u) =
+    {| b_steps := 1000; b_kt_start := n0; b_kt_finish := b_kt_finish NN (sb NN u); b_kt_ratio :=
+    b_kt_ratio NN (sb NN u); b_max_step := b_max_step NN (sb NN u); b_inner := b_inner NN (sb NN
+    u); b_conv := None |} /\ sb_seed NN (stage_settings NN (gen_stages NN) 0 i u) = Some i.
+Proof. exact cli_stage1_settings. Qed.
+Print Assumptions C05_cli_stage1_settings.
+
+Theorem C05_cli_stage3_settings :
+  forall (NN : Num) (i : N) (u : sbuilder NN), sb NN (stage_settings NN (gen_stages NN) 2 i u) =
+    {| b_steps := b_steps NN (sb NN u); b_kt_start := n0; b_kt_finish := b_kt_finish NN (sb NN
+    u); b_kt_ratio := b_kt_ratio NN (sb NN u); b_max_step := b_max_step NN (sb NN u); b_inner :=
+    b_inner NN (sb NN u); b_conv := b_conv NN (sb NN u) |} /\ sb_seed NN (stage_settings NN
+    (gen_stages NN) 2 i u) = Some i.
+Proof. exact cli_stage3_settings. Qed.
+Print Assumptions C05_cli_stage3_settings.
+
+Theorem C05_cli_first_and_last_stage_zero_start :
+  forall (i : N) (u : sbuilder NumF), zero_start (sb NumF (stage_settings NumF (gen_stages NumF)
+    0 i u)) /\ zero_start (sb NumF (stage_settings NumF (gen_stages NumF) 2 i u)).
+Proof. exact cli_first_and_last_stage_zero_start. Qed.
+Print Assumptions C05_cli_first_and_last_stage_zero_start.
+
+Theorem C05_cli_first_and_last_stage_hill_climb :
+  forall (fexp : F -> F) (fpow : F -> F -> F) (score : N -> list F -> option F), fexp
+    neg_infinity = 0%float -> forall (k : nat) (i : N) (u : sbuilder NumF) (ps : list (carrier
+    NumF)) (hs : list (handle NumF)) (s0 : F) (draws1 draws2 : list (draw NumF)), k = 0 \/ k = 2
+    -> fnan s0 = false -> Forall thr_ok (draws1 ++ draws2) -> let c := build NumF fpow (sb NumF
+    (stage_settings NumF (gen_stages NumF) k i u)) in let mid := run NumF fexp score c (init
+    NumF c ps hs s0) draws1 in let fin := run NumF fexp score c (init NumF c ps hs s0) (draws1
+    ++ draws2) in fleb s0 (score_cur NumF mid) = true /\ fleb (score_cur NumF mid) (score_cur
+    NumF fin) = true.
+Proof. exact cli_first_and_last_stage_hill_climb. Qed.
+Print Assumptions C05_cli_first_and_last_stage_hill_climb.
+
